@@ -140,6 +140,9 @@ class Const(Expr):
     def subst(self, inst):
         return self
 
+# Binding strength of the boolean operators in the grammar of parser2.
+bool_prec = {'<-->': 20, '-->': 25, '|': 30, '&': 35, '~': 40}
+
 class Op(Expr):
     """One of pre-specified operators."""
     def __init__(self, op, *args):
@@ -162,15 +165,52 @@ class Op(Expr):
         return "Op(%s,%s)" % (self.op, ",".join(repr(arg) for arg in self.args))
 
     def __str__(self):
+        # Brackets are placed so that parser2 reads the text back as this expression. In its grammar
+        # arithmetic operators have no precedence (everything nests to the right, unary minus
+        # included), ~ applies to an atomic condition only, and &, |, --> bind in this order and
+        # associate to the right; if-then-else and forall extend as far to the right as possible.
+        def is_arith(e):
+            return (isinstance(e, Op) and e.op in ('+', '-', '*')) or \
+                (isinstance(e, Const) and type(e.val) == int and e.val < 0)
+
+        def is_open(e):
+            return isinstance(e, (ITE, Forall))
+
+        def prec(e):
+            if isinstance(e, Op) and e.op in bool_prec:
+                return bool_prec[e.op]
+            return 100
+
+        def bracket(s):
+            return '(' + s + ')'
+
         if len(self.args) == 1:
-            return "%s%s" % (self.op, str(self.args[0]))
+            arg = self.args[0]
+            s = str(arg)
+            if self.op == '-' and (isinstance(arg, Op) and len(arg.args) == 2 or is_open(arg)):
+                s = bracket(s)
+            if self.op == '~' and (prec(arg) < 100 or is_open(arg)):
+                s = bracket(s)
+            return "%s%s" % (self.op, s)
         elif len(self.args) == 2:
-            arg1 = str(self.args[0])
-            arg2 = str(self.args[1])
-            if self.op == '*' and isinstance(self.args[0], Op) and self.args[0].op in ('+', '-'):
-                arg1 = '(' + arg1 + ')'
-            if self.op == '*' and isinstance(self.args[1], Op) and self.args[1].op in ('+', '-'):
-                arg2 = '(' + arg2 + ')'
+            a1, a2 = self.args
+            arg1, arg2 = str(a1), str(a2)
+            if self.op in ('+', '-', '*'):
+                if is_arith(a1) or is_open(a1):
+                    arg1 = bracket(arg1)
+                if is_arith(a2) or is_open(a2):
+                    arg2 = bracket(arg2)
+            elif self.op in bool_prec:
+                if prec(a1) <= prec(self) or is_open(a1):
+                    arg1 = bracket(arg1)
+                if prec(a2) < prec(self) or is_open(a2):
+                    arg2 = bracket(arg2)
+            else:
+                is_cond = lambda e: isinstance(e, Op) and e.op not in ('+', '-', '*')
+                if is_cond(a1) or is_open(a1):
+                    arg1 = bracket(arg1)
+                if is_cond(a2) or is_open(a2):
+                    arg2 = bracket(arg2)
             return "%s %s %s" % (arg1, self.op, arg2)
         else:
             raise NotImplementedError
